@@ -608,6 +608,12 @@ def _proj_step(base, path):
         return (vals[0] if len(vals) == 1 else ('phi', vals)), path[2:]
     if base[0] == 'call' and base[1] in FROM_RESIDUAL and path[0] == 'as Continue':
         return 'impossible'
+    if base[0] == 'closure' and str(path[0]).isdigit() and int(path[0]) < len(base[2]):
+        return base[2][int(path[0])], path[1:]        # captured variable of a known closure
+    if base[0] == 'proj' and all(p == '*' for p in base[2]):
+        return base[1], path
+    if base[0] == 'ref' and path[0] == '*':
+        return base[2], path[1:]
     if base[0] == 'agg':
         if path[0].startswith('as '):
             if base[2] and path[0] != 'as ' + base[2]:
